@@ -19,6 +19,7 @@ G = %(G)r
 GS = %(GS)r
 GL = %(GL)r
 Y = %(Y)r
+H = %(H)r
 
 """
 
@@ -102,7 +103,7 @@ def module_text(cond_text, lam_params, role="require", is_async=False, descripti
         ind = ""
         scope = "<module>"
     else:
-        lines.append("def make(C, CS, CL):")
+        lines.append("def make(C, CS, CL, H):")
         ind = "    "
         scope = "make"
         if nest == "class" and role != "invariant":
@@ -136,11 +137,11 @@ def module_text(cond_text, lam_params, role="require", is_async=False, descripti
     elif nest == "class" and role != "invariant":
         lines.append("    return Holder.f")
         lines.append("")
-        lines.append("F = make(%(C)r, %(CS)r, %(CL)r)" % GR.CLOSURE_VALUES)
+        lines.append("F = make(%(C)r, %(CS)r, %(CL)r, %(H)r)" % GR.CLOSURE_VALUES)
     else:
         lines.append("    return %s" % ret)
         lines.append("")
-        lines.append("F = make(%(C)r, %(CS)r, %(CL)r)" % GR.CLOSURE_VALUES)
+        lines.append("F = make(%(C)r, %(CS)r, %(CL)r, %(H)r)" % GR.CLOSURE_VALUES)
     return "\n".join(lines) + "\n", start, end, scope
 
 
